@@ -6,7 +6,8 @@
    check_case codes: 0 ok; 1 model <> implementation (request sequence, outcomes or directory differ);
    2 two processes with conflicting locks both believe they hold (mutual exclusion violated);
    3 a process believes it holds a lock but owns no complete lock file in the directory;
-   4 RemoveStaleLocks removed a lock that is neither older than the timeout nor of a dead local process. *)
+   4 RemoveStaleLocks removed a lock that is neither older than the timeout nor of a dead local process.
+   (forced-refresh races: 2 as above; 1 refreshStaleLock's verdict differs from forced_ok) *)
 From Restic Require Import Base.Prelude.
 
 Module C12m.
@@ -255,7 +256,21 @@ Record stalecase := mkStale {
   s_removed : list bool
 }.
 
-Inductive case := CWorld (w : world) | CStale (s : stalecase).
+(* forced refresh of a holder X whose lock went stale (refreshStaleLock: old lock listed? upload replacement,
+   wait, old lock still listed? adopt : clean up), raced by a process Y that removes X's old lock file
+   (unlock) and runs newLock.  old1 / old2: X's old lock file was present when X listed the first / second
+   time; saveok: the replacement was uploaded; xok: the forced refresh reported success (X goes on
+   believing); yok: Y acquired.  The backend answers Remove of a missing file with success. *)
+Record forcedcase := mkForced {
+  f_exclx : bool; f_excly : bool;
+  f_old1 : bool; f_saveok : bool; f_old2 : bool;
+  f_xok : bool; f_yok : bool
+}.
+
+(* the decision of refreshStaleLock *)
+Definition forced_ok (old1 saveok old2 : bool) : bool := andb (andb old1 saveok) old2.
+
+Inductive case := CWorld (w : world) | CStale (s : stalecase) | CForced (f : forcedcase).
 
 Definition excl_of (l : list bool) : pid -> bool := fun p => nth p l false.
 
@@ -321,6 +336,7 @@ Definition check_C12 (c : case) : bool :=
   | CWorld w => andb (mutexb (combine (w_excl w) (w_beliefs w)))
                      (holders_have_files (w_dir w) 0 (w_beliefs w))
   | CStale s => stale_safe (s_timeout s) (s_locks s) (s_removed s)
+  | CForced f => mutexb [(f_exclx f, if f_xok f then BHold else BErr); (f_excly f, if f_yok f then BHold else BLocked)]
   end.
 
 Definition model_removed (timeout : Z) (l : list (Z * bool * bool * bool)) : list bool :=
@@ -341,6 +357,9 @@ Definition check_case (c : case) : nat :=
   | CStale s =>
       if negb (stale_safe (s_timeout s) (s_locks s) (s_removed s)) then 4
       else if list_eqb Bool.eqb (model_removed (s_timeout s) (s_locks s)) (s_removed s) then 0 else 1
+  | CForced f =>
+      if negb (mutexb [(f_exclx f, if f_xok f then BHold else BErr); (f_excly f, if f_yok f then BHold else BLocked)]) then 2
+      else if Bool.eqb (forced_ok (f_old1 f) (f_saveok f) (f_old2 f)) (f_xok f) then 0 else 1
   end.
 
 End C12m.
